@@ -1218,7 +1218,7 @@ function visitors.VarDecl(context, node, emitter)
     if lastcallindex == 1 then -- last assignment may be a multiple return call
       multiretvalname = upfuncscope:generate_name('_asgnret')
       local rettypename = context:funcrettypename(valnode.attr.calleetype)
-      emitter:add_indent_ln(rettypename, ' ', multiretvalname, ' = ', valnode, ';')
+      defemitter:add_indent_ln(rettypename, ' ', multiretvalname, ' = ', valnode, ';')
     end
     if varattr:must_declare_at_runtime() and (context.pragmas.nodce or varattr:is_used(true)) then
       local zeroinit = not context.pragmas.noinit and varattr:must_zero_initialize()
